@@ -16,8 +16,13 @@ def strip_turbofish(s):
     i = 0
     n = len(s)
     while i < n:
-        if s.startswith('::<', i) and not s.startswith('::<impl ', i):
+        if s.startswith('::<', i):
             j, _ = scan_balanced(s, i + 3, ['>'])
+            # `path::<impl Type>::method` is an inherent-impl path segment, not a turbofish
+            if s.startswith('::<impl ', i) and s.startswith('::', j + 1):
+                out.append(s[i:j + 1])
+                i = j + 1
+                continue
             i = j + 1
             continue
         out.append(s[i])
